@@ -27,7 +27,7 @@ META = dict(
                  "HDF5 files are written by a C library: only create/close are kill points"],
     need=["crash_children_killed", "resume_runs", "digest_comparisons", "reference_event_lists_equal",
           "audit_crosschecks"],
-    quick=dict(cases=200, workers=10, budget_s=70),
+    quick=dict(cases=200, workers=15, budget_s=70),
     thorough=dict(cases=4000, workers=16, budget_s=1500),
     design_ref="DESIGN.md §5 C25",
     level_text=("exhaustive (thorough tier) over the enumerated file-system event list of the given runs x crash "
